@@ -5,8 +5,8 @@ package main
 
 import (
 	"fmt"
-	"go/constant"
 	"go/token"
+	"go/types"
 	"sort"
 	"strings"
 
@@ -14,534 +14,159 @@ import (
 )
 
 func init() {
-	register(&propDef{ID: "C15", Level: "other", Run: runC15})
+	register(&propDef{ID: "C15", Level: "model_checking", Run: runC15})
 }
 
 // POSIX XCU 2.2: characters that must be quoted, and the conditionally special ones.
 const posixMust = "|&;<>()$`\\\"' \t\n"
 const posixMay = "*?[#~=%"
 
-type quoteModel struct {
-	specials map[byte]bool // S∖{'}: bytes that set the "other" bit
-	quoteBit int64
-	otherBit int64
-}
-
-// analyseQuotable checks the structure of quotable(s) and extracts S.
-func analyseQuotable(c *Ctx, fn *ssa.Function) *quoteModel {
-	m := &quoteModel{specials: map[byte]bool{}}
-	name := fnName(fn)
-	var probs []string
-	sParam := fn.Params[0]
-	isByteOfS := func(v ssa.Value) bool {
-		ix, ok := v.(*ssa.Index)
-		return ok && ix.X == ssa.Value(sParam)
-	}
-	// find OR instructions and their guards
-	type orInfo struct {
-		bit   int64
-		guard string // "quote" | "special"
-	}
-	var ors []orInfo
-	var setConst string
-	allInstrs(fn, func(in ssa.Instruction) {
-		bo, ok := in.(*ssa.BinOp)
-		if !ok || bo.Op != token.OR {
-			return
-		}
-		bit, ok := constInt(bo.Y)
-		if !ok {
-			probs = append(probs, "non-constant bit in an OR")
-			return
-		}
-		g := ""
-		for _, cm := range cmpsAt(bo.Block()) {
-			if isByteOfS(cm.X) && isConstInt(cm.Y, '\'') && cm.Op == token.EQL {
-				g = "quote"
-			}
-			if call, ok := cm.X.(*ssa.Call); ok {
-				if cal := call.Call.StaticCallee(); cal != nil && cal.Name() == "IndexByte" && len(call.Call.Args) == 2 && isByteOfS(call.Call.Args[1]) && isConstInt(cm.Y, 0) && cm.Op == token.GEQ {
-					if cs, ok := call.Call.Args[0].(*ssa.Const); ok && cs.Value != nil && cs.Value.Kind() == constant.String {
-						if g == "" {
-							g = "special"
-						}
-						setConst = constant.StringVal(cs.Value)
-					}
-				}
-			}
-		}
-		// the quote branch takes precedence: special test is in the else-branch of the quote test
-		ors = append(ors, orInfo{bit, g})
-	})
-	for _, o := range ors {
-		switch o.guard {
-		case "quote":
-			m.quoteBit = o.bit
-		case "special":
-			m.otherBit = o.bit
-		default:
-			probs = append(probs, fmt.Sprintf("bit %d is set without a recognised guard", o.bit))
-		}
-	}
-	if m.quoteBit == 0 || m.otherBit == 0 || m.quoteBit == m.otherBit || len(ors) != 2 {
-		probs = append(probs, "expected exactly one guarded OR for the quote bit and one for the other bit")
-	}
-	for i := 0; i < len(setConst); i++ {
-		m.specials[setConst[i]] = true
-	}
-	// results: (v & quoteBit) != 0, (v & otherBit) != 0
-	allInstrs(fn, func(in ssa.Instruction) {
-		ret, ok := in.(*ssa.Return)
-		if !ok || len(ret.Results) != 2 {
-			return
-		}
-		for i, want := range []int64{m.quoteBit, m.otherBit} {
-			okR := false
-			if ne, ok := ret.Results[i].(*ssa.BinOp); ok && ne.Op == token.NEQ && isConstInt(ne.Y, 0) {
-				if and, ok := ne.X.(*ssa.BinOp); ok && and.Op == token.AND && isConstInt(and.Y, want) {
-					okR = true
-				}
-			}
-			if !okR {
-				probs = append(probs, fmt.Sprintf("result %d is not (v & %d) != 0", i, want))
-			}
-		}
-	})
-	// loop: i from 0 step 1 while i < len(s) [&& v < all]
-	loopOK := false
-	allInstrs(fn, func(in ssa.Instruction) {
-		ph, ok := in.(*ssa.Phi)
-		if !ok || !isIntType(ph.Type()) {
-			return
-		}
-		init0, step1 := false, false
-		for i, e := range ph.Edges {
-			if ph.Block().Dominates(ph.Block().Preds[i]) {
-				if f, ok := affOf(e, ph, nil, 0); ok && f == (aff{1, 1, 1}) {
-					step1 = true
-				}
-			} else if isConstInt(e, 0) {
-				init0 = true
-			}
-		}
-		if !init0 || !step1 {
-			return
-		}
-		for _, r := range referrersOf(ph) {
-			if bo, ok := r.(*ssa.BinOp); ok && bo.Op == token.LSS && bo.X == ssa.Value(ph) {
-				if ln, ok := isBuiltinCall(bo.Y, "len"); ok && ln.Call.Args[0] == ssa.Value(sParam) {
-					loopOK = true
-				}
-			}
-		}
-	})
-	if !loopOK {
-		probs = append(probs, "the scan does not run i = 0,1,… while i < len(s)")
-	}
-	// early exit only when both bits are set: any `v < K` guard must have K == quoteBit|otherBit
-	allInstrs(fn, func(in ssa.Instruction) {
-		bo, ok := in.(*ssa.BinOp)
-		if !ok || bo.Op != token.LSS {
-			return
-		}
-		if k, ok := constInt(bo.Y); ok {
-			if _, isPhi := bo.X.(*ssa.Phi); isPhi && !isIntType(bo.X.Type()) {
-				return
-			}
-			if ph, isPhi := bo.X.(*ssa.Phi); isPhi && ph.Type().String() == "uint" && k != m.quoteBit|m.otherBit {
-				probs = append(probs, fmt.Sprintf("the scan stops early at v >= %d, before both bits are known", k))
-			}
-		}
-	})
-	c.judge(len(probs) == 0, "R-QUOTABLE-BITS", name, fn.Pos(), fmt.Sprintf("hasQ ⇔ some byte is ', hasOther ⇔ some byte ∈ S (|S| = %d); full scan unless both already set", len(m.specials)), fmt.Sprint(probs))
-	if len(probs) > 0 {
-		return nil
-	}
-	return m
-}
-
-// ---------------------------------------------------------------- typestate
-
-type qtState struct {
-	b, pred *ssa.BasicBlock
-	env     string // canonical rendering of tracked booleans
-	out     int    // 0 Out, 1 In, 2 Esc
-	pending bool   // a fetched input byte has not been written yet
-}
-
-type quoteExplorer struct {
-	c        *Ctx
-	fn       *ssa.Function
-	m        *quoteModel
-	buf, s   ssa.Value
-	hasQ     ssa.Value
-	hasOther ssa.Value
-	seen     map[string]bool
-	problems map[string]token.Pos
-	steps    int
-}
-
-func envKey(env map[ssa.Value]bool) string {
-	var ks []string
-	for v, b := range env {
-		ks = append(ks, fmt.Sprintf("%s=%v", v.Name(), b))
-	}
-	sort.Strings(ks)
-	return strings.Join(ks, ",")
-}
-
-func (q *quoteExplorer) problem(msg string, pos token.Pos) {
-	if _, ok := q.problems[msg]; !ok {
-		q.problems[msg] = pos
-	}
-}
-
-// boolVal evaluates a boolean SSA value under env; ok=false if unknown.
-func (q *quoteExplorer) boolVal(v ssa.Value, env map[ssa.Value]bool) (bool, bool) {
-	if b, ok := env[v]; ok {
-		return b, true
-	}
-	switch x := v.(type) {
-	case *ssa.Const:
-		if x.Value != nil && x.Value.Kind() == constant.Bool {
-			return constant.BoolVal(x.Value), true
-		}
-	case *ssa.UnOp:
-		if x.Op == token.NOT {
-			b, ok := q.boolVal(x.X, env)
-			return !b, ok
-		}
-	}
-	return false, false
-}
-
-func (q *quoteExplorer) explore(b, pred *ssa.BasicBlock, env map[ssa.Value]bool, out int, pending bool) {
-	q.steps++
-	if q.steps > 20000 {
-		q.problem("state space too large", b.Instrs[0].Pos())
-		return
-	}
-	// values defined in b are recomputed on entry
-	env2 := map[ssa.Value]bool{}
-	for v, x := range env {
-		if in, ok := v.(ssa.Instruction); ok && in.Block() == b {
-			continue
-		}
-		env2[v] = x
-	}
-	env = env2
-	// phis
-	var phis []*ssa.Phi
-	for _, in := range b.Instrs {
-		ph, ok := in.(*ssa.Phi)
-		if !ok {
-			break
-		}
-		phis = append(phis, ph)
-	}
-	newVals := map[ssa.Value]bool{}
-	for _, ph := range phis {
-		if ph.Type().String() != "bool" {
-			continue
-		}
-		for i, p := range b.Preds {
-			if p == pred {
-				if v, ok := q.boolVal(ph.Edges[i], env); ok {
-					newVals[ph] = v
-				}
-			}
-		}
-	}
-	for v, x := range newVals {
-		env[v] = x
-	}
-	key := fmt.Sprintf("%d|%d|%s|%d|%v", b.Index, predIndex(pred), envKey(env), out, pending)
-	if q.seen[key] {
-		return
-	}
-	q.seen[key] = true
-
-	classify := func(x ssa.Value) string {
-		if k, ok := constInt(x); ok {
-			switch {
-			case k == '\'':
-				return "QUOTE"
-			case k == '\\':
-				return "BACKSLASH"
-			case q.m.specials[byte(k)]:
-				return "CONST-SPECIAL"
-			default:
-				return "CONST-PLAIN"
-			}
-		}
-		if ix, ok := x.(*ssa.Index); ok && ix.X == q.s {
-			// is ch known to be the quote?
-			for v, bv := range env {
-				if bo, ok := v.(*ssa.BinOp); ok && bo.Op == token.EQL && bo.X == x && isConstInt(bo.Y, '\'') {
-					if bv {
-						return "CH-QUOTE"
-					}
-					if ho, ok := q.boolVal(q.hasOther, env); ok && !ho {
-						return "CH-PLAIN"
-					}
-					return "CH-MAYBE-SPECIAL"
-				}
-			}
-			return "CH-UNKNOWN"
-		}
-		return "OTHER"
-	}
-	write := func(kind string, pos token.Pos) {
-		switch kind {
-		case "QUOTE":
-			switch out {
-			case 0:
-				out = 1
-			case 1:
-				out = 0
-			case 2:
-				q.problem("a constant quote is written right after the escaping backslash (instead of the input byte)", pos)
-			}
-		case "BACKSLASH":
-			if out != 0 {
-				q.problem("the escaping backslash is written while inside single quotes (it would be taken literally)", pos)
-			} else {
-				out = 2
-			}
-		case "CH-QUOTE":
-			if out != 2 {
-				q.problem("a single quote from the input is written without a preceding backslash outside quotes", pos)
-			}
-			out = 0
-		case "CH-MAYBE-SPECIAL":
-			if out == 2 {
-				q.problem("a non-quote byte follows the escaping backslash", pos)
-				out = 0
-			} else if out == 0 {
-				q.problem("a byte that may be special to the shell is written outside single quotes", pos)
-			}
-		case "CH-PLAIN", "CONST-PLAIN":
-			if out == 2 {
-				q.problem("a non-quote byte follows the escaping backslash", pos)
-				out = 0
-			}
-		case "CONST-SPECIAL":
-			if out != 1 {
-				q.problem("a constant special byte is written outside single quotes", pos)
-			}
-		default:
-			q.problem("a byte of unknown class is written ("+kind+"): the quoting state cannot be tracked", pos)
-		}
-		if strings.HasPrefix(kind, "CH-") {
-			if !pending {
-				q.problem("an input byte is written twice", pos)
-			}
-			pending = false
-		}
-	}
-	for _, in := range b.Instrs {
-		switch x := in.(type) {
-		case *ssa.Index:
-			if x.X == q.s {
-				if pending {
-					q.problem("an input byte is fetched while the previous one was never written (byte dropped)", x.Pos())
-				}
-				pending = true
-			}
-		case *ssa.Call:
-			cal := x.Call.StaticCallee()
-			if cal == nil || len(x.Call.Args) == 0 || x.Call.Args[0] != q.buf {
-				continue
-			}
-			switch cal.Name() {
-			case "WriteByte":
-				write(classify(x.Call.Args[1]), x.Pos())
-			case "WriteString":
-				if cs, ok := x.Call.Args[1].(*ssa.Const); ok && cs.Value != nil {
-					for _, ch := range []byte(constant.StringVal(cs.Value)) {
-						if ch == '\'' {
-							write("QUOTE", x.Pos())
-						} else if ch == '\\' {
-							write("BACKSLASH", x.Pos())
-						} else if q.m.specials[ch] {
-							write("CONST-SPECIAL", x.Pos())
-						} else {
-							write("CONST-PLAIN", x.Pos())
-						}
-					}
-				} else if x.Call.Args[1] == q.s {
-					hq, ok1 := q.boolVal(q.hasQ, env)
-					ho, ok2 := q.boolVal(q.hasOther, env)
-					if !(ok1 && ok2 && !hq && !ho) {
-						q.problem("the whole input is written verbatim on a path where it may contain special bytes", x.Pos())
-					}
-					if out != 0 {
-						q.problem("the whole input is written verbatim inside an open quote", x.Pos())
-					}
-				} else {
-					q.problem("a string of unknown content is written", x.Pos())
-				}
-			case "Grow", "Len", "Cap":
-			default:
-				q.problem("the buffer is written through "+cal.Name()+", which the quoting typestate does not model (bytes may be re-encoded)", x.Pos())
-			}
-		case *ssa.Return:
-			if out != 0 {
-				q.problem("quote returns with an open single quote or a dangling backslash", x.Pos())
-			}
-			if pending {
-				q.problem("quote returns with an input byte fetched but not written", x.Pos())
-			}
-			return
-		case *ssa.If:
-			if v, ok := q.boolVal(x.Cond, env); ok {
-				idx := 1
-				if v {
-					idx = 0
-				}
-				q.explore(b.Succs[idx], b, env, out, pending)
-				return
-			}
-			// unknown: fork, recording the choice for the underlying non-negated value
-			base := x.Cond
-			neg := false
-			for {
-				u, ok := base.(*ssa.UnOp)
-				if !ok || u.Op != token.NOT {
-					break
-				}
-				base, neg = u.X, !neg
-			}
-			for _, choice := range []bool{true, false} {
-				e2 := map[ssa.Value]bool{}
-				for k, v := range env {
-					e2[k] = v
-				}
-				e2[base] = choice != neg
-				idx := 1
-				if choice {
-					idx = 0
-				}
-				q.explore(b.Succs[idx], b, e2, out, pending)
-			}
-			return
-		case *ssa.Jump:
-			q.explore(b.Succs[0], b, env, out, pending)
-			return
-		case *ssa.Panic:
-			return
-		}
-	}
-}
-
-func predIndex(b *ssa.BasicBlock) int {
-	if b == nil {
-		return -1
-	}
-	return b.Index
-}
-
 func runC15(c *Ctx) {
 	P := c.P
-	c.Explanation = "Decides: (R-QUOTE-SET) the set S of bytes that force quoting — read by value from the string constant quotable searches, plus the quote byte it tests — contains every byte POSIX XCU 2.2 lists as special (and the conditionally special * ? [ # ~ = %) and every byte the package's own tokenizer classifies as non-ordinary (read from classOf). (R-QUOTABLE-BITS) quotable reports hasQ/hasOther exactly on membership, scanning the whole string unless both are already known. (R-QUOTE-TYPESTATE) an exhaustive exploration of quote's control-flow graph as a boolean program over {inq, hasQ, hasOther, 'ch is a quote'} × output typestate {outside, inside quotes, after backslash} shows: every input byte is written exactly once and in order; a quote byte from the input is always written right after a backslash outside quotes; a byte that may be special is only written inside quotes; the function returns outside quotes. Under the axiom 'ch special ⇒ hasOther' established by R-QUOTABLE-BITS. (R-POOL-RESET) pooled buffers are reset before use, put back on every exit, and never escape. (R-SPLIT-VIA-SCANNER) Split's results come from the scanner only. Does NOT decide Split(Join(ss)) == ss as an input/output fact (that needs C16's tokenizer semantics composed with this), nor what a real shell does."
-	c.rule("R-QUOTE-SET", 3, "POSIX special bytes ⊆ S∪{'}; tokenizer-special bytes ⊆ S∪{'}")
-	c.rule("R-QUOTABLE-BITS", 1, "quotable's bits are set exactly on membership; full scan")
-	c.rule("R-QUOTE-TYPESTATE", 1, "quote's CFG × predicate valuations × output typestate: bytes preserved, quotes escaped outside, specials inside, exit outside")
+	c.Level = "model_checking"
+	c.Explanation = "Decides, by exhaustive abstract execution (nothing is run): shell.Quote and shell.Join, with every package-local function they call inlined, are explored as finite-state programs over input strings abstracted to sequences of byte classes (the partition of the 256 byte values induced by every byte test in the code, the tokenizer's class table, the POSIX classes and the POSIX set of special characters); the bytes they write are pushed, as they are written, through (a) the package's own tokenizer as extracted from its tables for C16 and (b) an independently written POSIX word-splitting transducer. Checked on every path: (R-QUOTE-TYPESTATE) every input byte is visited once, in order, and written exactly once; both tokenizers read each input byte back as itself and each byte of quoting syntax as nothing; a byte special to a POSIX shell is only written inside single quotes or right after a backslash; word boundaries occur exactly between two strings of Join; at the end the result is a complete word list whose last (possibly empty) string is pending — i.e. Split(Join(ss)) == ss with ok == true and a POSIX shell reads Quote(s) as the single word s, for all strings at the level of byte classes. (R-QUOTABLE-BITS) each boolean helper consulted about the whole string (quotable) is shown to compute 'some byte of s lies in a fixed set', scanning to the end unless all its results are already true; its sets are read off by exploration. (R-QUOTE-SET) the union of those sets contains every byte POSIX XCU 2.2 lists as special and every byte the package's tokenizer does not treat as ordinary. (R-POOL-RESET) pooled buffers are reset before use, put back on every exit, and never escape. (R-SPLIT-VIA-SCANNER) Split's results come from the scanner only. Does NOT decide what a real /bin/sh does beyond the written POSIX reference, that Join visits every element of its argument (an element skipped entirely is not noticed), nor behaviour for strings containing NUL."
+	c.rule("R-QUOTE-SET", 3, "POSIX special bytes and tokenizer-special bytes all force quoting")
+	c.rule("R-QUOTABLE-BITS", 1, "each whole-string predicate used by the quoting code is 'some byte lies in a fixed set'; full scan unless all results are already true")
+	c.rule("R-QUOTE-TYPESTATE", 2, "Quote and Join × byte-class strings × (package tokenizer, POSIX reference): bytes preserved, syntax invisible, specials protected, boundaries exactly between strings, complete at the end")
 	c.rule("R-POOL-RESET", 2, "pooled buffers: Reset first, Put on exit, never escape")
 	c.rule("R-SPLIT-VIA-SCANNER", 1, "every result of shell.Split is produced by the pooled Scanner (Split/Complete)")
 	c.assume("POSIX XCU 2.2 list of special characters: | & ; < > ( ) $ ` \\ \" ' space tab newline, and conditionally * ? [ # ~ = %")
+	c.assume("the reference transducer of C16 is the intended POSIX word-splitting semantics for blanks, newlines, backslash, single and double quotes")
+	c.assume("the tokenizer model (table, class table, per-action effects, end-of-input verdicts) is the one extracted and checked under C16")
 
-	quotable := P.Func("shell", "", "quotable")
-	quote := P.Func("shell", "", "quote")
 	quoteFn, joinFn, splitFn := P.Func("shell", "", "Quote"), P.Func("shell", "", "Join"), P.Func("shell", "", "Split")
-	if quotable == nil || quote == nil || quoteFn == nil || joinFn == nil || splitFn == nil {
-		c.undecided("ANCHOR", "shell.quotable/quote/Quote/Join/Split", 0, "anchor not found")
+	if quoteFn == nil || joinFn == nil || splitFn == nil {
+		c.undecided("ANCHOR", "shell.Quote/Join/Split", 0, "anchor not found")
 		return
 	}
-	c.sawFn(fnName(quotable))
-	c.sawFn(fnName(quote))
-	m := analyseQuotable(c, quotable)
-	if m == nil {
-		c.undecided("R-QUOTE-SET", "shell.quotable:set", quotable.Pos(), "the quoting set could not be read")
-		c.undecided("R-QUOTE-TYPESTATE", "shell.quote", quote.Pos(), "depends on R-QUOTABLE-BITS")
+	// the tokenizer model, extracted as for C16 (its own obligations are reported there)
+	var sm *shellModel
+	tmp := newCtx(c.P, "C16", c.Tier)
+	runC16(tmp)
+	if m, ok := tmp.Extra["_model"].(*shellModel); ok && m != nil && m.interpOK {
+		sm = m
 	} else {
-		S := map[byte]bool{'\'': true}
-		for b := range m.specials {
-			S[b] = true
+		c.undecided("R-QUOTE-TYPESTATE", "shell tokenizer model", 0, "the package tokenizer could not be extracted (see C16): composition with Split not possible")
+	}
+	q := &qx{c: c, P: P, sm: sm, pkg: quoteFn.Pkg, summaries: map[*ssa.Function]*qsummary{}, problems: map[string]token.Pos{}}
+	q.buildAlphabet([]*ssa.Function{quoteFn, joinFn})
+	var alpha []string
+	for i := range q.alpha {
+		alpha = append(alpha, q.classDesc(i))
+	}
+	c.Extra["byte_classes"] = alpha
+	// whole-string predicates: package functions of one string parameter returning only booleans
+	var setsAll []uint64
+	nSum := 0
+	for _, fn := range q.closureFns {
+		if len(fn.Params) != 1 || !isStringType(fn.Params[0].Type()) || fn.Signature.Results().Len() == 0 {
+			continue
 		}
-		var missing []string
-		for i := 0; i < len(posixMust); i++ {
-			if !S[posixMust[i]] {
-				missing = append(missing, fmt.Sprintf("%q", posixMust[i]))
+		allBool := true
+		for i := 0; i < fn.Signature.Results().Len(); i++ {
+			if b, ok := fn.Signature.Results().At(i).Type().Underlying().(*types.Basic); !ok || b.Kind() != types.Bool {
+				allBool = false
 			}
 		}
-		c.judge(len(missing) == 0, "R-QUOTE-SET", "shell.quotable:POSIX must-quote", quotable.Pos(), "all 16 always-special bytes force quoting", "bytes special to a POSIX shell do not force quoting: "+strings.Join(missing, " "))
-		missing = nil
-		for i := 0; i < len(posixMay); i++ {
-			if !S[posixMay[i]] {
-				missing = append(missing, fmt.Sprintf("%q", posixMay[i]))
-			}
+		if !allBool {
+			continue
 		}
-		c.judge(len(missing) == 0, "R-QUOTE-SET", "shell.quotable:POSIX conditionally-special", quotable.Pos(), "* ? [ # ~ = % force quoting", "conditionally special bytes do not force quoting: "+strings.Join(missing, " "))
-		// tokenizer-special bytes
-		if sm := extractShellTablesQuiet(c); sm != nil {
-			other := sm.classVal["clOther"]
-			missing = nil
-			for b := 0; b < 256; b++ {
-				if sm.classOf[b] != other && !S[byte(b)] {
-					missing = append(missing, fmt.Sprintf("%q", rune(b)))
-				}
+		c.sawFn(fnName(fn))
+		nSum++
+		sum, probs := q.summarise(fn)
+		q.summaries[fn] = sum
+		if sum.ok {
+			var ds []string
+			for k, set := range sum.sets {
+				ds = append(ds, fmt.Sprintf("result %d ⇔ some byte ∈ %s", k, q.classSetDesc(set)))
 			}
-			c.judge(len(missing) == 0, "R-QUOTE-SET", "shell.quotable:tokenizer-special", quotable.Pos(), "every byte the tokenizer treats specially forces quoting", "bytes the package's own tokenizer treats specially are emitted unquoted by Quote: "+strings.Join(missing, " "))
-		}
-		// typestate
-		var hq, ho ssa.Value
-		allInstrs(quote, func(in ssa.Instruction) {
-			if call, ok := in.(*ssa.Call); ok && staticCallee(&call.Call) == quotable && call.Call.Args[0] == ssa.Value(quote.Params[0]) {
-				for _, r := range referrersOf(call) {
-					if ex, ok := r.(*ssa.Extract); ok {
-						if ex.Index == 0 {
-							hq = ex
-						} else {
-							ho = ex
-						}
-					}
-				}
-			}
-		})
-		if hq == nil || ho == nil || len(quote.Params) != 2 {
-			c.undecided("R-QUOTE-TYPESTATE", "shell.quote", quote.Pos(), "quote does not consult quotable(s) for both flags")
+			c.ok("R-QUOTABLE-BITS", fnName(fn), fn.Pos(), strings.Join(ds, "; "))
+			setsAll = append(setsAll, sum.sets...)
 		} else {
-			q := &quoteExplorer{c: c, fn: quote, m: m, s: quote.Params[0], buf: quote.Params[1], hasQ: hq, hasOther: ho, seen: map[string]bool{}, problems: map[string]token.Pos{}}
-			q.explore(quote.Blocks[0], nil, map[ssa.Value]bool{}, 0, false)
-			c.Extra["typestate_states_explored"] = len(q.seen)
-			if len(q.problems) == 0 {
-				c.ok("R-QUOTE-TYPESTATE", "shell.quote", quote.Pos(), fmt.Sprintf("%d (block, valuation, typestate) states explored, no violation", len(q.seen)))
-			} else {
-				var msgs []string
-				var pos token.Pos
-				for msg, p := range q.problems {
-					msgs = append(msgs, msg+" at "+P.pos(p))
+			c.bad("R-QUOTABLE-BITS", fnName(fn), fn.Pos(), strings.Join(probs, "; "))
+		}
+	}
+	if nSum == 0 {
+		c.undecided("R-QUOTABLE-BITS", "shell:whole-string predicate", quoteFn.Pos(), "no whole-string predicate (a function of the string returning booleans) is consulted by Quote/Join")
+	}
+	// R-QUOTE-SET
+	S := q.bytesOfSets(setsAll)
+	var missing []string
+	for i := 0; i < len(posixMust); i++ {
+		if !S[posixMust[i]] {
+			missing = append(missing, fmt.Sprintf("%q", posixMust[i]))
+		}
+	}
+	c.judge(len(missing) == 0, "R-QUOTE-SET", "shell:POSIX must-quote", quoteFn.Pos(), "all 16 always-special bytes force quoting", "bytes special to a POSIX shell do not force quoting: "+strings.Join(missing, " "))
+	missing = nil
+	for i := 0; i < len(posixMay); i++ {
+		if !S[posixMay[i]] {
+			missing = append(missing, fmt.Sprintf("%q", posixMay[i]))
+		}
+	}
+	c.judge(len(missing) == 0, "R-QUOTE-SET", "shell:POSIX conditionally-special", quoteFn.Pos(), "* ? [ # ~ = % force quoting", "conditionally special bytes do not force quoting: "+strings.Join(missing, " "))
+	if sm != nil {
+		// the tokenizer's "ordinary" class: the class of the majority of bytes
+		cnt := map[int64]int{}
+		for b := 0; b < 256; b++ {
+			cnt[sm.classOf[b]]++
+		}
+		var other int64
+		for v, n := range cnt {
+			if n > cnt[other] {
+				other = v
+			}
+		}
+		missing = nil
+		for b := 0; b < 256; b++ {
+			if sm.classOf[b] != other && !S[byte(b)] {
+				missing = append(missing, fmt.Sprintf("%q", rune(b)))
+			}
+		}
+		c.judge(len(missing) == 0, "R-QUOTE-SET", "shell:tokenizer-special", quoteFn.Pos(), "every byte the tokenizer treats specially forces quoting", "bytes the package's own tokenizer treats specially are emitted unquoted by Quote: "+strings.Join(missing, " "))
+	}
+	// R-QUOTE-TYPESTATE: the two roots
+	totalStates, totalSteps := 0, 0
+	for _, r := range []struct {
+		fn   *ssa.Function
+		mode int
+	}{{quoteFn, qmQuote}, {joinFn, qmJoin}} {
+		c.sawFn(fnName(r.fn))
+		q.mode, q.root = r.mode, r.fn
+		q.seen, q.problems, q.steps, q.overflow = map[string]bool{}, map[string]token.Pos{}, 0, false
+		q.explore(q.rootState(r.fn))
+		key := fnName(r.fn)
+		c.Extra["states_explored_"+r.fn.Name()] = len(q.seen)
+		totalStates += len(q.seen)
+		totalSteps += q.steps
+		switch {
+		case q.overflow:
+			c.undecided("R-QUOTE-TYPESTATE", key, r.fn.Pos(), "state space too large")
+		case len(q.problems) == 0:
+			c.ok("R-QUOTE-TYPESTATE", key, r.fn.Pos(), fmt.Sprintf("%d abstract states explored, no violation", len(q.seen)))
+		default:
+			var msgs []string
+			var pos token.Pos
+			for msg, p := range q.problems {
+				msgs = append(msgs, msg+" at "+P.pos(p))
+			}
+			sort.Strings(msgs)
+			for _, p := range q.problems {
+				if pos == token.NoPos || (p != token.NoPos && p < pos) {
 					pos = p
 				}
-				sort.Strings(msgs)
-				c.bad("R-QUOTE-TYPESTATE", "shell.quote", pos, strings.Join(msgs, "; "))
 			}
+			if len(msgs) > 6 {
+				msgs = append(msgs[:6], fmt.Sprintf("… and %d more", len(msgs)-6))
+			}
+			c.bad("R-QUOTE-TYPESTATE", key, pos, strings.Join(msgs, "; "))
 		}
 	}
+	c.Extra["states"] = totalStates
+	c.Extra["transitions"] = totalSteps
+	c.Extra["traces_validated_against_impl"] = 0
+	c.Extra["exhaustive"] = true
 	rulePoolReset(c, []*ssa.Function{quoteFn, joinFn})
-	// Quote and Join must produce their result by quote(s, buf) + buf.String()
-	for _, fn := range []*ssa.Function{quoteFn, joinFn} {
-		usesQuote := false
-		allInstrs(fn, func(in ssa.Instruction) {
-			if call, ok := in.(*ssa.Call); ok && staticCallee(&call.Call) == quote {
-				usesQuote = true
-			}
-		})
-		if !usesQuote {
-			c.bad("R-QUOTE-TYPESTATE", fnName(fn)+":uses quote", fn.Pos(), "does not go through quote(s, buf): its output is not covered by the typestate argument")
-		}
-	}
 	ruleSplitViaScanner(c, splitFn)
 }
 
@@ -601,12 +226,3 @@ func ruleSplitViaScanner(c *Ctx, splitFn *ssa.Function) {
 	c.judge(len(probs) == 0, "R-SPLIT-VIA-SCANNER", "shell.Split:results", splitFn.Pos(), "fields = Scanner.Split(), ok = Scanner.Complete() of the same scanner on every return", fmt.Sprint(probs)+": part of the input bypasses the table-driven tokenizer")
 }
 
-// extractShellTablesQuiet reads the tables without emitting obligations into c.
-func extractShellTablesQuiet(c *Ctx) *shellModel {
-	tmp := newCtx(c.P, c.Prop, c.Tier)
-	m := extractShellTables(tmp)
-	if m == nil {
-		c.undecided("R-QUOTE-SET", "shell.classOf", 0, "the tokenizer's class table could not be read")
-	}
-	return m
-}
